@@ -11,7 +11,8 @@ fn any_prio() -> VPrio {
     let kind: u8 = kani::any();
     kani::assume(kind <= 3);
     let n: u8 = kani::any();
-    VPrio { kind, n: if kind == 1 { n } else { 0 } }
+    let hi: bool = kani::any();
+    VPrio { kind, n: if kind == 1 { n } else { 0 }, hi: (kind == 1) & hi }
 }
 
 /// store with `k` one-command segments (chain), symbolic ids (distinct) and priorities
@@ -58,8 +59,13 @@ fn braidk_strand_order() {
     assert!((a < b) == gt);
     assert!((a == b) == false);
     assert!(a.cmp(&b) == b.cmp(&a).reverse());
-    kani::cover!((prios[0].kind == 1) & (prios[1].kind == 1) & (prios[0].n == prios[1].n) & lt, "tie broken by id");
+    kani::cover!((prios[0].kind == 1) & (prios[1].kind == 1) & (prios[0].value() == prios[1].value()) & lt, "tie broken by id");
     kani::cover!((prios[0].kind == 2) & (prios[1].kind == 1) & gt, "finalize sorts after basic");
+    // Basic(u32::MAX) is still below Finalize whatever the ids are
+    if (prios[0].kind == 2) & (prios[1].kind == 1) {
+        assert!(gt);
+    }
+    kani::cover!((prios[0].kind == 2) & (prios[1].kind == 1) & prios[1].hi & (prios[1].n == 0) & (ids[1] > ids[0]), "finalize vs Basic(u32::MAX) with the greater id");
     kani::cover!((prios[0].kind == 0) & (prios[1].kind == 1) & lt, "merge sorts before basic");
 }
 
@@ -92,7 +98,7 @@ fn braidk_strand_heap2() {
             assert!(!both_fin);
             assert!(heap.lone().is_none()); // two strands: not lone
             kani::cover!((prios[0].kind == 2) & (prios[1].kind != 2), "one finalize plus another strand accepted");
-            kani::cover!((prios[0].kind == 1) & (prios[1].kind == 1) & (prios[0].n == prios[1].n), "tie");
+            kani::cover!((prios[0].kind == 1) & (prios[1].kind == 1) & (prios[0].value() == prios[1].value()), "tie");
             // (popping from a two-element BinaryHeap is where CBMC runs out of memory: the order
             // of pops is covered by braidk_strand_order, which decides the Ord the heap uses)
         }
